@@ -64,13 +64,18 @@ def run_case(case):
     if not np.isfinite(Z).all():
         return Outcome(True, False, ["nonfinite_Z"], discard=True)
     ef = s.ef_wake(ps, imp, [0], 0, case["frev"], 1e-3, case["Ib"], 1.3e9, 4.7e-4, 1e-10)
+    # earlier requests on the same object (other profile, a cutoff) must not matter for "one and the same profile"
+    for op in case.get("prelude", []):
+        s.ps_set_projection(ps, 0, 0, (r.random(n) * 3).astype(np.float32))
+        s.ef_do(ef, op[0], op[1] if len(op) > 1 else 0.0)
+    s.ps_set_projection(ps, 0, 0, prof)
     s.ef_do(ef, "wake")
     w = s.ef_get(ef, "padded_wake").astype(np.float64)
     s.ef_do(ef, "csr", 0.0)
     spec0 = s.ef_get(ef, "csr_spectrum")[0].copy()
     P0 = float(s.ef_get(ef, "csr_power")[0])
     info = s.ef_info(ef)
-    cls = ["z_" + case["zkind"], gen.nclass(N), "p_" + case["pkind"]]
+    cls = ["z_" + case["zkind"], gen.nclass(N), "p_" + case["pkind"], "prelude" if case.get("prelude") else "fresh"]
     rho = np.zeros(N)
     rho[:n] = prof.astype(np.float64)
     kk = np.arange(N // 2 + 1)
@@ -145,8 +150,9 @@ def cases(draw):
                 L=draw(st.sampled_from([4.0, 6.0])), sigma_z=lg(1e-4, 1e-2), Ib=lg(1e-4, 1e-1),
                 fmax=gen.f32(lg(1e10, 1e13)), frev=gen.f32(lg(1e6, 1e8)), gap=lg(5e-3, 0.1), cond=lg(1e5, 1e8),
                 xi=draw(st.sampled_from([0.0, 0.0, -0.5, 3.0])), collratio=draw(st.floats(0.1, 0.9)),
-                cutoffs=[gen.f32(lg(1e8, 1e13)) for _ in range(draw(st.integers(0, 3)))])
+                cutoffs=[gen.f32(lg(1e8, 1e13)) for _ in range(draw(st.integers(0, 3)))],
+                prelude=draw(st.lists(st.sampled_from([["csr", 0.0], ["csr", 1e10], ["csr", 3e11], ["wake"]]), max_size=2)))
 
 
 def subs(tier):
-    return [Sub("parseval", cases(), run_case, quick=2500, thorough=80000)]
+    return [Sub("parseval", cases(), run_case, quick=25000, thorough=80000)]
